@@ -3,7 +3,7 @@ PROPERTY = 'C12'
 
 
 def plan(tier, seed):
-    nk, nb, nc, ns, nm = 21, 17, 9, 6, 12
+    nk, nb, nc, ns, nm = 21, 17, 11, 6, 12
     units = []
     q = tier == 'quick'
     for ki in range(nk):
